@@ -32,7 +32,10 @@ THEOREMS = {
             "Verif.lruV_conc", "Verif.mruV_conc", "Verif.fifoV_conc", "Verif.rrV_conc", "Verif.lfuV_conc", "Verif.lfudaV_conc",
             "Verif.tlruV_conc", "Verif.utlruV_conc", "Verif.utmapV_conc", "Verif.conc_C04_utmap",
             "Verif.conc_C10_lru", "Verif.conc_C13_mru", "Verif.conc_C12_fifo", "Verif.conc_C11_lfu", "Verif.conc_C15_rr",
-            "Verif.conc_C10_C16_tlru", "Verif.conc_C10_C16_utlru", "Verif.ConcExample.hist_impl", "Verif.ConcExample.khist_impl"],
+            "Verif.conc_C10_C16_tlru", "Verif.conc_C10_C16_utlru", "Verif.ConcExample.hist_impl", "Verif.ConcExample.khist_impl",
+            # a recorded history the checker accepts has a linearization that is a sequential history obeying the rules (Capstone.lean)
+            "Verif.Capstone.check_linearizable", "Verif.Capstone.check_seqRules", "Verif.Capstone.check_lru", "Verif.Capstone.check_tlru",
+            "Verif.Capstone.check_utlru", "Verif.Capstone.check_lfuda", "Verif.Capstone.check_utmap"],
     "C07": ["Verif.Conc.table_guarded", "Verif.Conc.table_guarded_classes", "Verif.Conc.generated_guarded_race_free",
             "Verif.Conc.generated_guarded_access_under_lock", "Verif.Conc.generated_guarded_happens_before",
             "Verif.Conc.guarded_race_free", "Verif.Conc.guarded_access_under_lock", "Verif.Conc.guarded_happens_before",
@@ -61,7 +64,7 @@ def conc_build(kind):
         cc = ["clang++-14", "-std=c++17", "-O0", "-g", "-fsanitize=thread", "-DHV_VIRTUAL_CLOCK", "-DHV_O0"]
         ld = ["clang++-14", "-fsanitize=thread"]
     else:
-        cc = ["g++", "-std=c++17", "-O2", "-DHV_VIRTUAL_CLOCK", "-pthread"]
+        cc = ["g++", "-std=c++17", "-O2", "-DHV_VIRTUAL_CLOCK", "-DHV_WIDE", "-pthread"]
         ld = ["g++", "-pthread"]
     jobs = []
     for k in gen.KINDS:
@@ -163,6 +166,11 @@ def tsan_matrix(exe, kinds, iters):
                     pairs += 1
             else:
                 buf.append(ln)
+        # the process may die inside the last pair it ran (corrupted structure, sanitizer abort): no `@done` then
+        if cur and any("ThreadSanitizer" in b for b in buf):
+            races.append({"kind": k, "pair": cur, "report": "\n".join(buf)[:3000]})
+        elif cur and any("ABORTING" in b or "AddressSanitizer" in b or "SEGV" in b for b in buf):
+            races.append({"kind": k, "pair": cur, "report": "the two threads crashed while running this pair\n" + "\n".join(buf)[-3000:]})
         if rcode is None and not races:
             races.append({"kind": k, "pair": cur or "?", "report": "the two threads did not finish within %d s (hang, livelock or corrupted structure) while running this pair\n%s" % (limit, rerr[-1500:])})
         elif rcode != 0 and not races:
@@ -232,6 +240,94 @@ def histories(exe, kinds, seed, n, n_poll):
     return tot, allf, und, samples
 
 
+TEAR_KINDS = [k for k in gen.KINDS if k != "utset"]
+
+
+def tear(exe, kinds, n):
+    """Returns (rows, fails): writers rewrite keys with self-identifying 768-byte values while readers look them up;
+    a lookup that reports a torn value or a value written under another key is a result no sequential order of the
+    calls can produce."""
+    def one(k):
+        rcode, rout, rerr = run_to([exe, "tear", k, str(n)], 120 + n // 20000)
+        m = re.search(r"tear (\w+) finds (\d+) hits (\d+) torn (\d+) foreign (\d+) example_key (\d+) example_value (\d+)", rout or "")
+        if rcode is None or rcode != 0 or not m:
+            what = "did not finish (hang, livelock or corrupted structure)" if rcode is None else "died with exit code %s" % rcode
+            return k, None, {"kind": k, "text": "the thread program `conc tear %s %d` %s" % (k, n, what),
+                             "history": "tear %s %d\n# %s\n" % (k, n, (rerr or "")[-1200:].replace("\n", "\n# "))}
+        row = {"kind": k, "finds": int(m.group(2)), "hits": int(m.group(3)), "torn": int(m.group(4)), "foreign": int(m.group(5))}
+        fail = None
+        if row["torn"] or row["foreign"]:
+            fail = {"kind": k, "text": "find(%s) reported value %s, which was never written under that key (%d torn, %d foreign of %d hits)" % (
+                m.group(6), m.group(7), row["torn"], row["foreign"], row["hits"]), "history": "tear %s %d\n" % (k, n)}
+        return k, row, fail
+    rows, fails = [], []
+    with cf.ThreadPoolExecutor(max_workers=max(1, C.NCPU // 6)) as ex:
+        for k, row, fail in ex.map(one, kinds):
+            if row:
+                rows.append(row)
+            if fail:
+                fails.append(fail)
+    return rows, fails
+
+
+def replay(prop, path):
+    """./check C06|C07 --replay FILE: a recorded history (cfg ... hist / h ... / end) is handed to the driver again; a
+    `tear <kind> <n>` line re-runs the scenario; a TSan report names the pair, which is re-run under TSan."""
+    ok, log = C.lean_build()
+    text = open(path).read()
+    lines = [l for l in text.splitlines() if l.strip() and not l.startswith("#")]
+    if lines and lines[0].startswith("tear "):
+        exe, blog = conc_build("plain")
+        if exe is None:
+            print(blog[-1500:])
+            return 2
+        t = lines[0].split()
+        rows, fails = tear(exe, [t[1]], int(t[2]))
+        print(rows)
+        for f in fails:
+            print(f["text"])
+        if fails:
+            print("VIOLATION property=%s replay=%s" % (prop, path))
+            return 1
+        return 0
+    if lines and lines[0].startswith("cfg "):
+        d = subprocess.run([C.DRIVER], input="\n".join(lines) + "\n", stdout=subprocess.PIPE, stderr=subprocess.PIPE, text=True)
+        print(d.stdout)
+        if " LIN FAIL" in d.stdout:
+            print("VIOLATION property=%s replay=%s" % (prop, path))
+            return 1
+        return 0
+    m = re.search(r"# scenario: conc (hist .*|tear .*)", text)
+    if m:
+        exe, blog = conc_build("plain")
+        if exe is None:
+            print(blog[-1500:])
+            return 2
+        rcode, rout, rerr = run_to([exe] + m.group(1).split(), 600)
+        d = subprocess.run([C.DRIVER], input=rout or "", stdout=subprocess.PIPE, stderr=subprocess.PIPE, text=True)
+        print("\n".join(l for l in d.stdout.splitlines() if " LIN FAIL" in l or " BAD " in l))
+        print("exit", rcode, (rerr or "")[-800:])
+        if rcode != 0 or " LIN FAIL" in d.stdout:
+            print("VIOLATION property=%s replay=%s" % (prop, path))
+            return 1
+        return 0
+    m = re.search(r"# replay: <conc tsan binary> tsan (\w+) (\d+)", text)
+    if m:
+        exe, blog = conc_build("tsan")
+        if exe is None:
+            print(blog[-1500:])
+            return 2
+        pairs, races = tsan_matrix(exe, [m.group(1)], int(m.group(2)))
+        for r in races[:3]:
+            print(r["pair"], "\n", r["report"][:1500])
+        if races:
+            print("VIOLATION property=%s replay=%s" % (prop, path))
+            return 1
+        return 0
+    print(text)
+    return 0
+
+
 def main(prop, tier, seed, t0):
     kinds = gen.KINDS
     tr_ok, tr_log = translate()
@@ -278,6 +374,9 @@ def main(prop, tier, seed, t0):
             fails = [f for f in fails if f not in rr_fails]
             und += len(rr_fails)
             cov["rr_histories_not_judged_because_draws_could_not_be_mirrored"] = len(rr_fails)
+        trows, tfails = tear(exe, TEAR_KINDS, 60000 if tier == "quick" else 2000000)
+        fails = fails + tfails
+        cov["tear_scenario"] = {"per_kind": trows, "rule": "3 writers (insert_or_update / erase of 16 keys, capacity 4, 768-byte self-identifying values) against 3 readers (find, peek and non-peek): a reported value must have been written under the key asked for, in one piece"}
         cov.update({"histories_checked": tot, "histories_undecided": und, "histories_not_linearizable": len(fails),
                     "threads_per_history": "3 x 4 calls (mix), 2 x 12 calls (poll: evicting inserts vs size()/empty()), 2 x 5 calls (bigrange: find_range over 200 keys vs insert_range rewriting the first and the last of them)",
                     "samples": samples or [{"note": "none"}]})
